@@ -23,7 +23,7 @@ const rule = "streams of 10-60 healthy concurrent requests (GET/POST, bodies up 
 	"fault kinds x injection points: pending list (5xx, garbage JSON, truncated reply, dropped connection, non-HTTP reply), request fetch (connection dropped on every attempt / on the first only, non-HTTP reply, reset mid-body, 404, 5xx x1-3, truncated or garbled " +
 	"wire request, missing start-time header, unparsable start time), backend (accept-then-close before/after reading, garbage status line, " +
 	"headers without end, bad chunk size, short Content-Length, reset mid-body, 2 MiB header, 1xx flood), upload (5xx x1-3, connection reset), " +
-	"shim endpoints (malformed JSON, wrong JSON types, unknown IDs, 1 MiB bodies on open/data/poll/close, and a real session fed messages of odd shapes), plus a second agent whose backend " +
+	"shim endpoints (malformed JSON, wrong JSON types, unknown IDs, 1 MiB bodies on open/data/poll/close, a real session fed messages of odd shapes, and shim opens whose backend drops the handshake, answers garbage, half an answer or 403, or is unreachable), plus a second agent whose backend " +
 	"port is closed (502 expected); agent binary runs with shim and session tracking on; invariant over the history: agent alive, no " +
 	"race/fatal/panic, every healthy request uploaded once with its own content; non-trivial = a fault overlapping a healthy request in " +
 	"time (measured); distinct = SHA-256 of the canonical case"
@@ -45,6 +45,7 @@ var faultKinds = []string{
 	"upload-5xx-1", "upload-5xx-3", "upload-reset",
 	"shim-open-garbage", "shim-data-malformed", "shim-data-wrong-type", "shim-data-unknown-id", "shim-poll-unknown-id", "shim-poll-malformed",
 	"shim-close-unknown-id", "shim-close-wrong-type", "shim-data-huge", "shim-open-unreachable-path", "shim-session-odd-messages",
+	"shim-open-backend-drops", "shim-open-backend-garbage", "shim-open-backend-403", "shim-open-backend-half-answer", "shim-open-backend-unreachable",
 	"unreachable-backend",
 }
 
@@ -130,6 +131,19 @@ func getRig(t vh.TB) *rig {
 		r.mu.Unlock()
 		if s != nil {
 			return s(rq, c)
+		}
+		switch {
+		case strings.HasPrefix(rq.Target, "/wsdrop/"): // the handshake is closed unanswered
+			return false
+		case strings.HasPrefix(rq.Target, "/wsgarbage/"):
+			c.Write([]byte("\x16\x03\x01\x02\x00 certainly not HTTP\r\n\r\n"))
+			return false
+		case strings.HasPrefix(rq.Target, "/ws403/"):
+			c.Write([]byte("HTTP/1.1 403 Forbidden\r\nContent-Length: 6\r\n\r\ndenied"))
+			return true
+		case strings.HasPrefix(rq.Target, "/wshalf/"): // the answer breaks off inside the header section
+			c.Write([]byte("HTTP/1.1 101 Switching Protocols\r\nUpgrade: websocket\r\nConnec"))
+			return false
 		}
 		if key := rq.Values("Sec-WebSocket-Key"); len(key) > 0 && strings.HasPrefix(rq.Target, "/ws/") {
 			// a websocket handshake of a shim session: accept it and hold the connection
@@ -396,6 +410,25 @@ func (r *rig) runFault(kind, tok string) error {
 		cq := r.fp.Submit(id+"-close", "", "POST", []byte(post("close", `{"id":"`+sid+`"}`)))
 		cq.Wait(3 * time.Second)
 		r.fp.Forget(id + "-close")
+		return nil
+	case kind == "shim-open-backend-drops":
+		wire = post("open", "ws://c07.example/wsdrop/"+tok)
+	case kind == "shim-open-backend-garbage":
+		wire = post("open", "ws://c07.example/wsgarbage/"+tok)
+	case kind == "shim-open-backend-403":
+		wire = post("open", "ws://c07.example/ws403/"+tok)
+	case kind == "shim-open-backend-half-answer":
+		wire = post("open", "ws://c07.example/wshalf/"+tok)
+	case kind == "shim-open-backend-unreachable":
+		// through the second agent, whose backend port is closed: the websocket dial is refused
+		q := r.fp2.Submit(id, "", "POST", []byte(post("open", "ws://c07.example/ws/"+tok)))
+		defer r.fp2.Forget(id)
+		if up := q.Wait(20 * time.Second); up == nil {
+			if !r.agent2.Alive() {
+				return fmt.Errorf("shim open with an unreachable backend: the agent is gone: %s", r.agent2.Tail(6))
+			}
+			return fmt.Errorf("shim open with an unreachable backend: no answer was uploaded within 20s and the agent is still running")
+		}
 		return nil
 	case kind == "shim-open-garbage":
 		wire = post("open", "://\x7f not a url at all %zz")
